@@ -73,6 +73,11 @@ class LocalHashFileDB(HashFileDB):
 
         return ret
 
+    def list_oids_exists(self, oids, jobs=None):
+        # NOTE: see `exists()`: a plain path check would report the leftover of
+        # an interrupted operation (e.g. an empty file) as an existing object.
+        yield from self.oids_exist(list(oids), jobs=jobs)
+
     def _list_paths(self, prefix=None):
         assert self.path is not None
         if prefix:
